@@ -119,7 +119,7 @@ impl BlobIndex {
         requires self.bytes.n >= 12,
         ensures r == (self.count >= self.cap()), // @label full_iff_count_reaches_capacity
 //@end
-//@fn foyer-storage/src/engine/block/buffer.rs :: impl~^impl BlobIndex$/fn write sub=@index\.write\(&mut self\.bytes\[start\.\.end\]\)@verif_write_index(index, &mut self.bytes, start, end)@
+//@fn foyer-storage/src/engine/block/buffer.rs :: impl~^impl BlobIndex$/fn write sub=@index\.write\(&mut self\.bytes\[([^\]]*?)\.\.([^\]]*?)\]\)@verif_write_index(index, &mut self.bytes, \1, \2)@
 //@spec
         requires old(self).wf(), old(self).count < old(self).cap(), // @label never_written_when_full
         ensures final(self).count == old(self).count + 1, final(self).bytes == old(self).bytes, final(self).wf(), // @label one_more_entry_recorded
@@ -576,8 +576,8 @@ pub fn verif_tail_mut(bytes: &mut IoSliceMut, offset: usize) -> (r: TailT)
 { unimplemented!() }
 /// `buf[..slice.len()].copy_from_slice(slice)`
 #[verifier::external_body]
-pub fn verif_copy(buf: &mut TailT, slice: &[u8])
-    requires slice@.len() <= old(buf).n, // @label raw_entry_copied_inside_the_buffer
+pub fn verif_copy(buf: &mut TailT, slice: &[u8], n: usize)
+    requires n == slice@.len(), n <= old(buf).n, // @label raw_entry_copied_inside_the_buffer
     ensures final(buf).n == old(buf).n,
 { }
 pub uninterp spec fn checksum_of_range(a: int, b: int) -> u64;
@@ -609,7 +609,7 @@ impl Buffer {
         &&& infos_ok(self.entry_infos@, self.max_entry_size as int)
     }
 
-//@fn foyer-storage/src/engine/block/buffer.rs :: impl~^impl Buffer$/fn push_slice rules=drop-tracing ret=r sub=@let buf = &mut self\.bytes\[offset\.\.\];@let mut buf = verif_tail_mut(&mut self.bytes, offset);@ sub=@buf\[\.\.slice\.len\(\)\]\.copy_from_slice\(slice\);@verif_copy(&mut buf, slice);@
+//@fn foyer-storage/src/engine/block/buffer.rs :: impl~^impl Buffer$/fn push_slice rules=drop-tracing ret=r sub=@let buf = &mut self\.bytes\[([^\]]*)\.\.\];@let mut buf = verif_tail_mut(&mut self.bytes, \1);@ sub=@buf\[\.\.([^\]]*)\]\.copy_from_slice\(slice\);@verif_copy(&mut buf, slice, \1);@
 //@spec
         requires old(self).wf(), slice@.len() > 0, slice@.len() + 4095 <= usize::MAX,
         ensures
@@ -624,7 +624,7 @@ impl Buffer {
 //@end
 
 // ---- Buffer::push, header part: lengths, checksum over exactly key+value bytes, compression tag
-//@region foyer-storage/src/engine/block/buffer.rs :: impl~^impl Buffer$/fn push name=push_header start=/let checksum = Checksummer::checksum64\(/ end=/header\.write\(&mut buf\[\.\.EntryHeader::serialized_len\(\)\]\);/ sub=@Checksummer::checksum64\(\s*&buf\[EntryHeader::serialized_len\(\)\s*\.\.EntryHeader::serialized_len\(\) \+ info\.key_len as usize \+ info\.value_len as usize\],\s*\)@verif_checksum(&buf, EntryHeader::serialized_len(), EntryHeader::serialized_len() + info.key_len as usize + info.value_len as usize)@ sub=@header\.write\(&mut buf\[\.\.EntryHeader::serialized_len\(\)\]\);@verif_header_write(&header, buf, EntryHeader::serialized_len());@ sub=@info\.key_len as _@info.key_len as u32@ sub=@info\.value_len as _@info.value_len as u32@
+//@region foyer-storage/src/engine/block/buffer.rs :: impl~^impl Buffer$/fn push name=push_header start=/let checksum = / stmts=3 sub=@(?s)Checksummer::checksum64\(\s*&buf\[([^\]]*?)\s*\.\.([^\]]*?)\],?\s*\)@verif_checksum(&buf, \1, \2)@ sub=@header\.write\(&mut buf\[\.\.([^\]]*)\]\);@verif_header_write(&header, buf, \1);@ sub=@info\.key_len as _@info.key_len as u32@ sub=@info\.value_len as _@info.value_len as u32@
 //@head
     fn push_header(buf: &mut TailT, info: &KvInfo, hash: u64, sequence: Sequence, compression: Compression) -> (h: EntryHeader)
         requires 36 + info.key_len + info.value_len <= old(buf).n, info.key_len <= u32::MAX, info.value_len <= u32::MAX,
@@ -637,7 +637,7 @@ impl Buffer {
 //@end
 
 // ---- Buffer::push, commit part: refuse the entry as a whole if it exceeds the per-entry limit, else record it
-//@region foyer-storage/src/engine/block/buffer.rs :: impl~^impl Buffer$/fn push name=push_commit start=/let len = EntryHeader::serialized_len\(\) \+ info\.key_len as usize \+ info\.value_len as usize;/ end=/self\.written \+= aligned;/ rules=drop-tracing
+//@region foyer-storage/src/engine/block/buffer.rs :: impl~^impl Buffer$/fn push name=push_commit start=/let len = / stmts=99 rules=drop-tracing
 //@head
     fn push_commit(&mut self, offset: usize, info: KvInfo, hash: u64, sequence: Sequence) -> (r: bool)
         requires
@@ -657,8 +657,6 @@ impl Buffer {
             lemma_align_fits(len as int, self.bytes.n - self.written);
             lemma_buf_push(self.entry_infos@, BufferEntryInfo { hash: hash, sequence: sequence, offset: offset, len: len });
         }
-//@tail
-        true
 //@end
 
 //@fn foyer-storage/src/engine/block/buffer.rs :: impl~^impl Buffer$/fn finish rules=drop-tracing ret=r
